@@ -6,11 +6,11 @@ Driver glue for the `Finger` domain.
     finger.globs <n> (<neg> <k> <path>{k}){n}                         → <path>* | -
     finger.hist  <nPaths> (<pathHex> <dir>){nPaths} <nDirs> <dirLen>{nDirs} <nTasks> <task>{nTasks} <nSteps> <step>{nSteps}
         pathHex: the slash path relative to the project root;  dirLen: length of `<dir>/` for task directory 0, 1, …
-        task := <nameHex> <labelHex> <method> <prompt> <dir> <pats> <pats> <k> <path>{k} <nCmds> (<k> (<path> <contentHex>){k}){nCmds}
+        task := <nameHex> <labelHex> <method> <prompt> <dir> <pats> <pats> <k> <path>{k} <nCmds> (<k> (<path> <contentHex>){k} <need>){nCmds}
         pats := <n> (<neg> <k> <path>{k}){n}
         step := I <task> <mode> <now> <yes> <fail> <kill> | W <path> <contentHex> <mtime> | T <path> <mtime>
               | D <path> | M <path> <path> | R <dir>
-      dir / fail / kill: 0 = none, k+1 = some k;  method: 0 checksum 1 timestamp 2 none;
+      dir / fail / kill / need: 0 = none, k+1 = some k (need = the path a `task:` call's precondition tests);  method: 0 checksum 1 timestamp 2 none;
       mode: 0 run 1 force 2 dry 3 status 4 list-json 5 list 6 summary
     answer: one segment per step joined by " | ":
       [e=<exit> s=<skipped> r=<ran,…|-> b=<bits|-> g=<goodRun of the invoked task before the step> ; ] F <path>=<hex>@<mtime>* ; D <dir>* ; C <keyHex>=<hashHex>* ; M <keyHex>=<mtime>*
@@ -49,7 +49,8 @@ def method : P Method := do
 
 def cmd : P Cmd := do
   let ws ← many (do let p ← nat; let c ← bytes; pure (p, c))
-  pure ⟨ws⟩
+  let need ← optNat
+  pure ⟨ws, need⟩
 
 def task : P Task := do
   let name ← chars; let label ← chars; let m ← method; let prompt ← bool; let dir ← optNat
